@@ -59,6 +59,17 @@ func SetParams(tApp app.TestApp, ctx sdk.Context, subspace string, ps paramtypes
 	ss.SetParamSet(ctx, ps)
 }
 
+// ReadParams reads a module's parameter set straight from its x/params subspace: what the store holds (what a
+// governance change wrote), not what the module keeper reports.  Harness observations of parameters use this, so
+// that a keeper serving remembered parameters disagrees with the observation instead of being observed through itself.
+func ReadParams(tApp app.TestApp, ctx sdk.Context, subspace string, ps paramtypes.ParamSet) {
+	ss, ok := tApp.GetParamsKeeper().GetSubspace(subspace)
+	if !ok {
+		panic("kapp: no params subspace " + subspace)
+	}
+	ss.GetParamSet(ctx, ps)
+}
+
 // Result class of one operation, as baseapp would see it.
 type Class string
 
